@@ -671,3 +671,144 @@ Theorem C03_sample_outcome_on_valid_object :
 Proof. exact @sample_outcome. Qed.
 Example C03_example_range_total : forall lo hi s0, (lo <= hi)%Z -> next_range (const_source (1 / 2)) lo hi s0 <> Fail.
 Proof. exact range_total_inhabited. Qed.
+
+(** ** supports ON BINARY64 (Flocq's specification of the primitive floats): Uniform and Exponential as the crate computes
+    them, for EVERY random source whose unit variates are finite doubles of [0, 1 - 2^-53] (1 - 2^-53 is the largest double
+    below 1) — the executable `alea` model is such a source for every generator state (C19_alea_f64_unit_interval_binary64),
+    whatever the libm table.
+    [finite64 v] = "v is neither NaN nor an infinity", [real64 v] = the real number a finite double denotes. *)
+From Flocq Require BinarySingleNaN PrimFloat Core.
+From Compute Require Proofs.C03_binary64.
+Import Proofs.C03_binary64.
+Local Notation finite64 v := (Flocq.IEEE754.BinarySingleNaN.is_finite (Flocq.IEEE754.PrimFloat.Prim2B v) = true).
+Local Notation real64 v := (Flocq.IEEE754.BinarySingleNaN.B2R (Flocq.IEEE754.PrimFloat.Prim2B v)).
+Local Notation round64 := (Flocq.Core.Generic_fmt.round Flocq.Core.Zaux.radix2 (SpecFloat.fexp FloatOps.prec FloatOps.emax)
+                             (Flocq.IEEE754.BinarySingleNaN.round_mode Flocq.IEEE754.BinarySingleNaN.mode_NE)).
+Theorem C03_alea_source_unit_binary64 :
+  forall (t : libm_table) (range_fuel : nat) (s : rng),
+    finite64 (fst (next_f64 (alea_source (FO t) range_fuel) s)) /\
+    0 <= real64 (fst (next_f64 (alea_source (FO t) range_fuel) s)) <= 1 - / 2 ^ 53.
+Proof. exact alea_unit_source64. Qed.
+(** `Uniform::sample` = `(upper - lower) * alea::f64() + lower`, three roundings.  For finite lower <= upper whose binary64
+    difference is finite (no overflow), every draw is a FINITE double of the CLOSED interval [lower, upper], it is the
+    thrice-rounded expression, and the source advances by one variate.  The upper end is included — it is attained (example
+    below), unlike on the real carrier (C03_uniform_inverse_cdf: `< upper`) — and never exceeded; the latter is not monotone
+    rounding alone (the rounded width may exceed upper - lower): it uses that the variate is at most 1 - 2^-53. *)
+Theorem C03_uniform_support_binary64 :
+  forall (S : Type) (t : libm_table) (src : source S float) (lo hi : float) (s : S),
+    (forall s0 : S, finite64 (fst (next_f64 src s0)) /\ 0 <= real64 (fst (next_f64 src s0)) <= 1 - / 2 ^ 53) ->
+    finite64 lo -> finite64 hi -> real64 lo <= real64 hi -> finite64 (PrimFloat.sub hi lo) ->
+    finite64 (fst (uniform_sample (FO t) src lo hi s)) /\
+    real64 lo <= real64 (fst (uniform_sample (FO t) src lo hi s)) <= real64 hi /\
+    real64 (fst (uniform_sample (FO t) src lo hi s))
+      = round64 (round64 (round64 (real64 hi - real64 lo) * real64 (fst (next_f64 src s))) + real64 lo) /\
+    snd (uniform_sample (FO t) src lo hi s) = snd (next_f64 src s).
+Proof. exact @uniform_support_f64_pin. Qed.
+(** on the executable generator: no hypothesis on the source is left *)
+Theorem C03_uniform_support_binary64_alea :
+  forall (t : libm_table) (range_fuel : nat) (lo hi : float) (s : rng),
+    finite64 lo -> finite64 hi -> real64 lo <= real64 hi -> finite64 (PrimFloat.sub hi lo) ->
+    finite64 (fst (uniform_sample (FO t) (alea_source (FO t) range_fuel) lo hi s)) /\
+    real64 lo <= real64 (fst (uniform_sample (FO t) (alea_source (FO t) range_fuel) lo hi s)) <= real64 hi /\
+    snd (uniform_sample (FO t) (alea_source (FO t) range_fuel) lo hi s) = snd (u64 s).
+Proof. exact uniform_support_alea. Qed.
+(** the hypotheses are satisfiable (seed 42, Uniform(-1.5, 2.25)) ... *)
+Example C03_example_uniform_binary64 :
+  finite64 (-1.5)%float /\ finite64 2.25%float /\ real64 (-1.5)%float <= real64 2.25%float /\
+  finite64 (PrimFloat.sub 2.25 (-1.5)) /\
+  uniform_sample (FO empty_tbl) (alea_source (FO empty_tbl) 0) (-1.5)%float 2.25%float (set_seed 42)
+    = (0x1.0d9753cf7f3c6p+0%float, 11562461410679940185%N).
+Proof. exact uniform_f64_hyps_ex. Qed.
+(** ... and the upper end IS attained on binary64: between 1 and the next double every variate above 1/2 returns `upper` *)
+Example C03_example_uniform_upper_attained_binary64 :
+  finite64 1%float /\ finite64 0x1.0000000000001p+0%float /\ real64 1%float <= real64 0x1.0000000000001p+0%float /\
+  finite64 (PrimFloat.sub 0x1.0000000000001p+0 1) /\
+  fst (uniform_sample (FO empty_tbl) (alea_source (FO empty_tbl) 0) 1%float 0x1.0000000000001p+0%float (set_seed 42))
+    = 0x1.0000000000001p+0%float.
+Proof. exact uniform_f64_upper_attained_ex. Qed.
+
+(** `Exponential::sample` = `-u.ln() / lambda` with u the first strictly positive `Uniform(0,1).sample()`.  On binary64 the
+    argument handed to ln is a finite double of (0, 1 - 2^-53] — never 0, never 1, never NaN, whatever libm does — and the draw
+    is the displayed quotient.  What glibc's ln returns is not known to Coq: under the NAMED hypothesis
+    [ln_tbl_nonpos_on_unit t [u]] (on the one argument that occurs, the recorded table's ln of a finite double of (0, 1] is a
+    finite double <= 0) the draw compares >= 0 and is not NaN (+inf only when the quotient overflows: tiny lambda), and it is
+    the finite, non-negative, correctly rounded quotient when that does not overflow. *)
+Theorem C03_exponential_support_binary64 :
+  forall (S : Type) (t : libm_table) (src : source S float) (fuel : nat) (lambda : float) (s : S) (v : float) (s' : S),
+    (forall s0 : S, finite64 (fst (next_f64 src s0)) /\ 0 <= real64 (fst (next_f64 src s0)) <= 1 - / 2 ^ 53) ->
+    finite64 lambda -> 0 < real64 lambda ->
+    exponential_sample (FO t) src fuel lambda s = Ok (v, s') ->
+    exists u : float,
+      positive_unit (FO t) src fuel s = Ok (u, s') /\ finite64 u /\ 0 < real64 u <= 1 - / 2 ^ 53 /\
+      v = PrimFloat.div (PrimFloat.opp (f1 (FO t) Ln u)) lambda /\
+      (ln_tbl_nonpos_on_unit t [u] ->
+         PrimFloat.leb 0 v = true /\ is_nan (FO t) v = false /\
+         (Rabs (round64 (- real64 (f1 (FO t) Ln u) / real64 lambda)) < Flocq.Core.Raux.bpow Flocq.Core.Zaux.radix2 FloatOps.emax ->
+            finite64 v /\ real64 v = round64 (- real64 (f1 (FO t) Ln u) / real64 lambda) /\ 0 <= real64 v)).
+Proof. exact @exponential_support_f64. Qed.
+(** the named hypothesis, written out *)
+Theorem C03_ln_tbl_nonpos_on_unit_def :
+  forall (t : libm_table) (args : list float),
+    ln_tbl_nonpos_on_unit t args <->
+    (forall a : float, In a args -> finite64 a -> 0 < real64 a <= 1 ->
+       finite64 (f1 (FO t) Ln a) /\ real64 (f1 (FO t) Ln a) <= 0).
+Proof. intros t args. split; intros H; exact H. Qed.
+Theorem C03_exponential_support_binary64_alea :
+  forall (t : libm_table) (range_fuel fuel : nat) (lambda : float) (s : rng) (v : float) (s' : rng),
+    finite64 lambda -> 0 < real64 lambda ->
+    exponential_sample (FO t) (alea_source (FO t) range_fuel) fuel lambda s = Ok (v, s') ->
+    exists u : float,
+      positive_unit (FO t) (alea_source (FO t) range_fuel) fuel s = Ok (u, s') /\ finite64 u /\ 0 < real64 u <= 1 - / 2 ^ 53 /\
+      v = PrimFloat.div (PrimFloat.opp (f1 (FO t) Ln u)) lambda /\
+      (ln_tbl_nonpos_on_unit t [u] -> PrimFloat.leb 0 v = true /\ is_nan (FO t) v = false).
+Proof. exact exponential_support_alea. Qed.
+(** the hypotheses are satisfiable: seed 42, Exponential(2), the table holding glibc's ln of the one variate drawn *)
+Example C03_example_exponential_binary64 :
+  let t := {| tbl1 := [(Ln, 0x1.5c94f97fbb536p-1%float, (-0x1.89ad9b925a81ap-2)%float)]; tbl2 := [] |} in
+  finite64 2%float /\ 0 < real64 2%float /\
+  exponential_sample (FO t) (alea_source (FO t) 0) 1 2%float (set_seed 42)
+    = Ok (0x1.89ad9b925a81ap-3%float, 11562461410679940185%N) /\
+  positive_unit (FO t) (alea_source (FO t) 0) 1 (set_seed 42) = Ok (0x1.5c94f97fbb536p-1%float, 11562461410679940185%N) /\
+  ln_tbl_nonpos_on_unit t [0x1.5c94f97fbb536p-1%float].
+Proof. exact exponential_f64_hyps_ex. Qed.
+
+(** `DiscreteUniform::sample` = `(lower + alea::i64_less_than(upper - lower + 1)) as f64` on binary64: for bounds below 2^53 in
+    magnitude the conversion is exact, so a returned draw is the finite double whose value is the integer the range draw
+    produced, inside [lower, upper] (every source whose range draw stays in range; on the executable generator: always) *)
+Theorem C03_discrete_uniform_support_binary64 :
+  forall (S : Type) (t : libm_table) (src : source S float) (lo hi : Z) (s : S) (v : float) (s' : S),
+    (- 2 ^ 53 < lo)%Z -> (hi < 2 ^ 53)%Z ->
+    (forall k s1, next_range src lo hi s = Ok (k, s1) -> (lo <= k <= hi)%Z) ->
+    discrete_uniform_sample (FO t) src lo hi s = Ok (v, s') ->
+    exists k : Z, next_range src lo hi s = Ok (k, s') /\ (lo <= k <= hi)%Z /\
+                  finite64 v /\ real64 v = IZR k /\ IZR lo <= real64 v <= IZR hi.
+Proof. exact @discrete_uniform_support_f64. Qed.
+Theorem C03_discrete_uniform_support_binary64_alea :
+  forall (t : libm_table) (range_fuel : nat) (lo hi : Z) (s : rng) (v : float) (s' : rng),
+    (- 2 ^ 53 < lo)%Z -> (lo <= hi)%Z -> (hi < 2 ^ 53)%Z ->
+    discrete_uniform_sample (FO t) (alea_source (FO t) range_fuel) lo hi s = Ok (v, s') ->
+    exists k : Z, (lo <= k <= hi)%Z /\ finite64 v /\ real64 v = IZR k /\ IZR lo <= real64 v <= IZR hi.
+Proof. exact discrete_uniform_support_alea. Qed.
+Example C03_example_discrete_uniform_binary64 :
+  discrete_uniform_sample (FO empty_tbl) (alea_source (FO empty_tbl) 64) (-3) 5 (set_seed 42)
+    = Ok (3%float, 11562461410679940185%N).
+Proof. exact discrete_uniform_f64_ex. Qed.
+
+(** 1 - 2^-53 is the largest double below 1: "a finite double of [0, 1)" and "a finite double of [0, 1 - 2^-53]" are the same
+    condition on a source (the form used in the hypotheses above) *)
+Theorem C03_below_one_binary64 :
+  forall u : float, real64 u < 1 -> real64 u <= 1 - / 2 ^ 53.
+Proof. exact below_one_f64. Qed.
+(** bulk: every entry of `sample_n` of a Uniform (hence of `sample_matrix`, which reshapes it) is a finite double of
+    [lower, upper], and there are n of them — every source of unit variates, every count *)
+Theorem C03_uniform_sample_n_support_binary64 :
+  forall (S : Type) (t : libm_table) (src : source S float) (lo hi : float) (fuel n : nat) (s : S) (l : list float) (s' : S),
+    (forall s0 : S, finite64 (fst (next_f64 src s0)) /\ 0 <= real64 (fst (next_f64 src s0)) <= 1 - / 2 ^ 53) ->
+    finite64 lo -> finite64 hi -> real64 lo <= real64 hi -> finite64 (PrimFloat.sub hi lo) ->
+    sample_n (FO t) src fuel (DUniform lo hi) n s = Ok (l, s') ->
+    length l = n /\ Forall (fun v => finite64 v /\ real64 lo <= real64 v <= real64 hi) l.
+Proof. exact @uniform_sample_n_support_f64. Qed.
+Example C03_example_uniform_sample_n_binary64 :
+  sample_n (FO empty_tbl) (alea_source (FO empty_tbl) 0) 0 (DUniform (-1.5)%float 2.25%float) 3 (set_seed 42)
+  = Ok ([0x1.0d9753cf7f3c6p+0%float; 0x1.ecbd24d825952p+0%float; 0x1.7a8783b063684p+0%float], 16240640158330268855%N).
+Proof. exact uniform_sample_n_f64_ex. Qed.
